@@ -128,6 +128,9 @@ where
                                         panic!("sink must not send data");
                                     },
                                     Message::Pull => {
+                                        if ended.load(AtomicOrdering::Acquire) {
+                                            return;
+                                        }
                                         call!(
                                             source_talkback,
                                             Message::Pull,
